@@ -60,6 +60,7 @@ type Facet struct {
 	Name   string       `json:"name"`
 	Field  string       `json:"field"`
 	Size   int          `json:"size"`
+	Prefix string       `json:"prefix,omitempty"` // terms facet: TermPrefix filter (Other then counts the other terms)
 	Ranges [][2]*float64 `json:"ranges,omitempty"` // numeric ranges [min,max), named r0, r1, ...
 }
 
@@ -85,7 +86,7 @@ type In struct {
 // ---------------------------------------------------------------- generation
 
 var cats = []string{"red", "green", "blue", "x"}
-var tags = []string{"t1", "t2", "t3", "t4", "t5", "t6"}
+var tags = []string{"ta1", "ta2", "ta3", "tb1", "tb2", "tb3"}
 
 var sorts = [][]string{
 	{"_id"}, {"-_id"}, {"cat", "_id"}, {"-cat", "_id"}, {"cat", "-_id"}, {"n", "_id"}, {"-n", "-_id"}, {"-n", "_id"}, {"cat", "-n", "_id"},
@@ -204,6 +205,10 @@ func genFacets(r *vrand.R) []Facet {
 			f.Ranges = append(f.Ranges, [2]*float64{&c, &b})
 		}
 		fs = append(fs, f)
+	}
+	if r.Chance(1, 3) {
+		// prefix-filtered terms facet: 3 terms can pass, the size is larger; Other = the terms filtered out
+		fs = append(fs, Facet{Name: "pre", Field: "tag", Size: r.Range(4, 6), Prefix: vrand.Pick(r, []string{"ta", "tb", "ta1"})})
 	}
 	if r.Chance(1, 6) {
 		// a size that does NOT cover the buckets: only the model correspondence is checked on it
@@ -547,6 +552,9 @@ func mkQuery(q string) query.Query {
 func addFacets(req *bleve.SearchRequest, fs []Facet) {
 	for _, f := range fs {
 		fr := bleve.NewFacetRequest(f.Field, f.Size)
+		if f.Prefix != "" {
+			fr.SetPrefixFilter(f.Prefix)
+		}
 		for i, rg := range f.Ranges {
 			fr.AddNumericRange(fmt.Sprintf("r%d", i), rg[0], rg[1])
 		}
@@ -768,7 +776,7 @@ func main() {
 		Rule: "corpora of 0..40 documents (keyword fields q/cat/tag, numeric n; absent and multi-valued fields) assigned at random (uniform or skewed, empty shards included) to 1..5 in-memory " +
 			"indexes (scorch and upsidedown mixed), reached through an alias tree of depth <= 3 (single-member aliases, members added with Add); requests: match-all / term / numeric-range / no-match " +
 			"queries, score-independent total sorts (_id, -_id, field(s) then _id in both directions), pages Size in {1..n+5} x From in {0..n+3}, Size = 0 with From = 0 / > 0 / beyond the end, " +
-			"SearchAfter and SearchBefore from every position of the listing and from keys of no document, terms facets (covering and non-covering sizes) and numeric range facets, Fields = *; " +
+			"SearchAfter and SearchBefore from every position of the listing and from keys of no document, terms facets (covering and non-covering sizes, with and without a prefix filter) and numeric range facets, Fields = *; " +
 			"each request runs on the alias root and on one index holding everything; non-trivial: at least two members hold matching documents",
 		ShardSize: 24,
 	}, gen, exec)
